@@ -14,14 +14,22 @@ Definition snap_ok (nd : node) (log : list entry) (sc : scope) (rest : list pid)
   exists seg, since_req log (RAct sc false) seg /\
     forall p, In p (snapshot_list nd sc) -> In p rest \/ exists v, In (EUpd p v) seg.
 
-Definition snap_inv (nd : node) (s : state) (c : conn) : Prop :=
-  match c_pc (cth s c) with
-  | CAcq r => exists seg, since_req (logs s c) r seg
-  | CBuild sc todo => snap_ok nd (logs s c) sc todo
-  | CSendU sc p v todo => snap_ok nd (logs s c) sc (p :: todo)
-  | CSendR (RpActive sc) => snap_ok nd (logs s c) sc []
-  | _ => True
+(* the activation in progress: its scope and the parameters whose initial update is still to be sent *)
+Definition pending_snapshot (pc : cpc) : option (scope * list pid) :=
+  match pc with
+  | CAcqU sc g => Some (sc, flat g)
+  | CBuild sc m todo g => Some (sc, map (fun i => (m, i)) todo ++ flat g)
+  | CSendU sc m i _ todo g => Some (sc, (m, i) :: map (fun j => (m, j)) todo ++ flat g)
+  | CSendR (RpActive sc) => Some (sc, [])
+  | _ => None
   end.
+
+Definition snap_inv_of (nd : node) (pc : cpc) (log : list entry) : Prop :=
+  match pc with
+  | CAcq r => exists seg, since_req log r seg
+  | _ => match pending_snapshot pc with Some (sc, rest) => snap_ok nd log sc rest | None => True end
+  end.
+Definition snap_inv (nd : node) (s : state) (c : conn) : Prop := snap_inv_of nd (c_pc (cth s c)) (logs s c).
 
 Lemma since_req_app_upd : forall log r seg p v,
   since_req log r seg -> since_req (log ++ [EUpd p v]) r (seg ++ [EUpd p v]).
@@ -49,27 +57,20 @@ Proof.
 Qed.
 
 (* an update appended to the log of a connection keeps its invariant *)
-Lemma snap_inv_app_upd : forall nd pc log p v,
-  match pc with
-  | CAcq r => exists seg, since_req log r seg
-  | CBuild sc todo => snap_ok nd log sc todo
-  | CSendU sc q _ todo => snap_ok nd log sc (q :: todo)
-  | CSendR (RpActive sc) => snap_ok nd log sc []
-  | _ => True
-  end ->
-  match pc with
-  | CAcq r => exists seg, since_req (log ++ [EUpd p v]) r seg
-  | CBuild sc todo => snap_ok nd (log ++ [EUpd p v]) sc todo
-  | CSendU sc q _ todo => snap_ok nd (log ++ [EUpd p v]) sc (q :: todo)
-  | CSendR (RpActive sc) => snap_ok nd (log ++ [EUpd p v]) sc []
-  | _ => True
-  end.
+Lemma snap_inv_app_upd : forall nd pc log p v, snap_inv_of nd pc log -> snap_inv_of nd pc (log ++ [EUpd p v]).
 Proof.
-  intros nd pc log p v. destruct pc; auto.
+  intros nd pc log p v. unfold snap_inv_of. destruct pc; simpl; auto; try apply snap_ok_app_upd.
   - intros [seg H]. eexists; apply since_req_app_upd; eauto.
-  - apply snap_ok_app_upd.
-  - apply snap_ok_app_upd.
   - destruct r; auto. apply snap_ok_app_upd.
+Qed.
+
+Lemma snap_inv_enter : forall nd s c sc g c0,
+  (c0 <> c -> snap_inv nd s c0) -> snap_ok nd (logs s c) sc (flat g) ->
+  snap_inv nd (enter_groups s c sc g) c0.
+Proof.
+  intros nd s c sc g c0 O K. unfold snap_inv. rewrite logs_enter. destruct (Nat.eq_dec c0 c) as [-> | N].
+  - destruct (cth_enter_self s c sc g) as [_ [[-> E] | [G E]]]; rewrite E; simpl; auto.
+  - rewrite cth_enter_other by auto. apply O; auto.
 Qed.
 
 Lemma snap_inv_step : forall nd s st, (forall c, snap_inv nd s c) -> forall c, snap_inv nd (cstep nd s st) c.
@@ -80,14 +81,22 @@ Proof.
   - (* request received *) unfold snap_inv; unf. split_c c0 c; [| apply (I c0)].
     exists []. apply since_req_new.
   - (* handler *) pose proof (I c) as Ic. unfold snap_inv in Ic. rewrite H0 in Ic.
-    apply handle_cases; intros; subst r; unfold snap_inv; unf; split_c c0 c; auto; try apply (I c0).
-    + destruct Ic as [seg S]. exists seg. split; auto. rewrite H4; simpl; tauto.
-    + destruct Ic as [seg S]. exists seg. split; auto.
+    apply handle_cases; intros; subst r; try (unfold snap_inv; unf; split_c c0 c; auto; apply (I c0)).
+    apply snap_inv_enter.
+    + intros N. unfold snap_inv; unf. apply (I c0).
+    + unf. destruct Ic as [seg S]. exists seg. split; auto.
+  - (* module lock, nothing to send *) pose proof (I c) as Ic. unfold snap_inv in Ic. rewrite H0 in Ic.
+    apply snap_inv_enter; [intros; apply (I c0) | exact Ic].
+  - (* module lock *) pose proof (I c) as Ic. unfold snap_inv in *; unf. split_c c0 c; [| apply (I c0)].
+    rewrite H0 in Ic. exact Ic.
   - (* build *) pose proof (I c) as Ic. unfold snap_inv in *; unf. split_c c0 c; [| apply (I c0)].
-    rewrite H0 in Ic; auto.
-  - (* send of a snapshot message *) pose proof (I c) as Ic. unfold snap_inv in Ic. rewrite H0 in Ic.
-    unfold after_snapshot. destruct todo; unfold snap_inv; unf; split_c c0 c; try apply (I c0);
-      apply snap_ok_send; auto.
+    rewrite H0 in Ic; exact Ic.
+  - (* last snapshot message of a module *) pose proof (I c) as Ic. unfold snap_inv in Ic. rewrite H0 in Ic.
+    apply snap_inv_enter.
+    + intros N. unfold snap_inv; unf. rewrite upd_other by auto. apply (I c0).
+    + unf. rewrite upd_same. apply snap_ok_send. exact Ic.
+  - (* snapshot message *) pose proof (I c) as Ic. unfold snap_inv in Ic. rewrite H0 in Ic.
+    unfold snap_inv; unf. split_c c0 c; [| apply (I c0)]. apply snap_ok_send. exact Ic.
   - (* reply *) unfold snap_inv; unf. split_c c0 c; auto. apply (I c0).
   - (* driver thread start *) unfold snap_inv; unf; apply (I c).
   - unfold snap_inv; unf; apply (I c).
@@ -115,6 +124,6 @@ Proof.
   { unfold s, run. apply (run_invariant nd (fun s => forall c, snap_inv nd s c)).
     - intros; apply snap_inv_step; auto.
     - intros; apply snap_inv_init. }
-  specialize (I c). unfold snap_inv in I. rewrite H in I. destruct I as [seg [[pre [E F]] K]].
+  specialize (I c). unfold snap_inv in I. rewrite H in I. simpl in I. destruct I as [seg [[pre [E F]] K]].
   exists pre, seg. repeat split; auto. intros p P. destruct (K p P) as [[] | X]; auto.
 Qed.
